@@ -1,0 +1,37 @@
+//go:build verif
+// +build verif
+
+package main
+
+import (
+	"crypto/rand"
+	"encoding/hex"
+	"errors"
+	"os"
+)
+
+// With the "verif" build tag, opgen reads its random bytes from the hex
+// string in $VERIF_TAPE (when set) instead of the operating system, so that
+// the verification harness can compare it with the library on the same bytes.
+// A tape that runs dry fails the read; it is never padded.
+
+type verifTape struct{ b []byte }
+
+func (t *verifTape) Read(p []byte) (int, error) {
+	if len(t.b) == 0 {
+		return 0, errors.New("verif tape exhausted")
+	}
+	n := copy(p, t.b)
+	t.b = t.b[n:]
+	return n, nil
+}
+
+func init() {
+	if h, ok := os.LookupEnv("VERIF_TAPE"); ok {
+		b, err := hex.DecodeString(h)
+		if err != nil {
+			panic("VERIF_TAPE: " + err.Error())
+		}
+		rand.Reader = &verifTape{b}
+	}
+}
